@@ -49,6 +49,51 @@ ENTRY int verif_pbf_nodes_roundtrip(const long* fields, unsigned n, int dense, u
     } catch (const osmium::pbf_error&) { return 1; } catch (const protozero::exception&) { return 2; } catch (const std::exception&) { return 3; }
 }
 
+// ---------------------------------------------------------------- PBF: plain node / way / relation through PBFOutputFormat::node / way / relation
+// kind 0 plain node {id, version, changeset, uid, x, y}; 1 way {id, version, ref0, ref1, ref2, x (of ref0 if locations are written)};
+// 2 relation {id, version, mref0 (node), mref1 (way), mref2 (relation), mref3 (node)}.  User "usr", one tag, roles "a" / "" / "a" / "b".
+// out1 = dump of the object as built, out2 = dump of what the reader made of the written block.  low = locations_on_ways
+ENTRY int verif_pbf_object_roundtrip(int kind, const long* f, int low, unsigned char* out1, unsigned* len1, unsigned char* out2, unsigned* len2, unsigned cap) {
+    try {
+        memory::Buffer in{1024};
+        if (kind == 0) {
+            { builder::NodeBuilder b{in}; b.set_id(f[0]).set_version(static_cast<object_version_type>(f[1])).set_timestamp(Timestamp{uint32_t(1000000000)}).set_changeset(static_cast<changeset_id_type>(f[2]))
+                .set_uid(static_cast<user_id_type>(f[3])).set_location(Location{static_cast<int32_t>(f[4]), static_cast<int32_t>(f[5])}); b.set_user("usr");
+              { builder::TagListBuilder t{b}; t.add_tag("k", "v"); } }
+        } else if (kind == 1) {
+            { builder::WayBuilder b{in}; b.set_id(f[0]).set_version(static_cast<object_version_type>(f[1])).set_timestamp(Timestamp{uint32_t(1000000000)}).set_changeset(7).set_uid(8); b.set_user("usr");
+              { builder::WayNodeListBuilder wn{b};
+                wn.add_node_ref(NodeRef{f[2], low ? Location{static_cast<int32_t>(f[5]), 11} : Location{}}); wn.add_node_ref(NodeRef{f[3], low ? Location{-5, 12} : Location{}}); wn.add_node_ref(NodeRef{f[4], low ? Location{7, -13} : Location{}}); }
+              { builder::TagListBuilder t{b}; t.add_tag("k", "v"); } }
+        } else {
+            { builder::RelationBuilder b{in}; b.set_id(f[0]).set_version(static_cast<object_version_type>(f[1])).set_timestamp(Timestamp{uint32_t(1000000000)}).set_changeset(7).set_uid(8); b.set_user("usr");
+              { builder::RelationMemberListBuilder ml{b}; ml.add_member(item_type::node, f[2], "a"); ml.add_member(item_type::way, f[3], ""); ml.add_member(item_type::relation, f[4], "a"); ml.add_member(item_type::node, f[5], "b"); }
+              { builder::TagListBuilder t{b}; t.add_tag("k", "v"); } }
+        }
+        in.commit();
+        { Dump d{out1, cap}; d.buffer(in); *len1 = d.len; if (d.overflow) return 9; }
+        // partially constructed output format: only the options and the primitive block are used by node() / way() / relation()
+        struct Raw { alignas(PBFOutputFormat) unsigned char mem[sizeof(PBFOutputFormat)]; } raw; std::memset(raw.mem, 0, sizeof(raw.mem));
+        auto* of = reinterpret_cast<PBFOutputFormat*>(raw.mem);
+        new (&of->m_options) pbf_output_options{};
+        of->m_options.use_dense_nodes = false; of->m_options.use_compression = pbf_compression::none; of->m_options.locations_on_ways = low != 0;
+        of->m_options.add_metadata = osmium::metadata_options{};
+        of->m_options.add_metadata.set_version(true); of->m_options.add_metadata.set_timestamp(true); of->m_options.add_metadata.set_changeset(true); of->m_options.add_metadata.set_uid(true); of->m_options.add_metadata.set_user(true);
+        new (&of->m_primitive_block) std::shared_ptr<PrimitiveBlock>{};
+        of->m_bucket_count = StringTable::min_bucket_count;
+        if (kind == 0) of->node(in.get<Node>(0)); else if (kind == 1) of->way(in.get<Way>(0)); else of->relation(in.get<Relation>(0));
+        std::string file = SerializeBlob{std::move(of->m_primitive_block), pbf_blob_type::data, pbf_compression::none, 0}();
+        const uint32_t hsize = PBFParser::check_size(PBFParser::get_size_in_network_byte_order(file.data()));
+        const std::size_t bsize = PBFParser::decode_blob_header(protozero::data_view{file.data() + 4, hsize}, "OSMData");
+        if (4 + hsize + bsize != file.size()) return 4;
+        std::string blob{file.data() + 4 + hsize, bsize}, unpacked;
+        PBFPrimitiveBlockDecoder decoder{decode_blob(blob, unpacked), osm_entity_bits::all, io::read_meta::yes};
+        memory::Buffer b = decoder();
+        Dump d{out2, cap}; d.buffer(b); *len2 = d.len;
+        return d.overflow ? 9 : 0;
+    } catch (const osmium::pbf_error&) { return 1; } catch (const protozero::exception&) { return 2; } catch (const std::exception&) { return 3; }
+}
+
 // ---------------------------------------------------------------- OPL: one object through OPLOutputBlock and back through opl_parse_line
 #include <osmium/io/detail/opl_output_format.hpp>
 #include <osmium/io/detail/opl_parser_functions.hpp>
